@@ -16,6 +16,7 @@ Per generated pair:
   support evaluations of gjk_distance_jolt.
 """
 import json
+import time
 import math
 from fractions import Fraction as Fr
 
@@ -208,6 +209,12 @@ def nesterov_loop_correspondence(R, cases, tier):
 
 def run(tier, seed, replay=None):
     R = cm.Run(PID, "translation_validation", tier, seed)
+    _t = [time.time()]
+    R.cov["phase_s"] = {}
+
+    def phase(name):
+        R.cov["phase_s"][name] = round(time.time() - _t[0], 1)
+        _t[0] = time.time()
     R.cov["rule"] = (
         "case = ordered pair of colliders (10 kinds, optional Margin). Streams: every ordered kind pair constructed at a TRUE "
         "distance from {1e-6,1e-3,0.03,0.1,1,10,100} (facing support points) and overlapping at depth k*1e-3L; every mixed "
@@ -239,9 +246,12 @@ def run(tier, seed, replay=None):
     for c in cases:
         c["ops"] = ops_for(c["c1"], c["c2"])
         c["meta"]["L"] = nw.scene_scale([c["c1"], c["c2"]])
+    phase("proofs+generation")
     R.cov["jit_warmup"] = nb.warm(PID)
+    phase("jit_warmup")
     results = nb.run_cases(PID, cases)
     R.cov["evaluations"] = len(cases)
+    phase("implementation")
 
     exprs, idx = [], []
     hist = {}
@@ -342,6 +352,7 @@ def run(tier, seed, replay=None):
     except RuntimeError as e:
         R.proof_broken.append(f"checker evaluation failed: {str(e)[:400]}")
         verdicts = []
+    phase("certificates_in_coq")
     distinct = set()
     rejected = 0
     ok_by_case = {}
@@ -395,5 +406,7 @@ def run(tier, seed, replay=None):
         R.sample(dict(c1=c["c1"], c2=c["c2"], meta=c["meta"],
                       result={r["fn"] + str(op.get("kw", "")): {k: r.get(k) for k in ("d", "iterations", "contact", "exc") if k in r}
                               for op, r in zip(c["ops"], rr)}))
+    phase("judging")
     nesterov_loop_correspondence(R, cases, tier)
+    phase("nesterov_correspondence")
     return R.finish()
